@@ -39,6 +39,52 @@ def base_doc():
     ])
 
 
+def base_lsc_doc():
+    """timed automata A, B plus one LSC template with every kind of chart element (the shape of test/models/lsc_example.xml)"""
+    def ta(name, lid):
+        return n("template", kids=[n("name", text=name), n("location", {"id": lid}), n("init", {"ref": lid}),
+                                   n("transition", kids=[n("source", {"ref": lid}), n("target", {"ref": lid}), n("label", {"kind": "synchronisation"}, text="m1?")])])
+    return n("nta", kids=[
+        n("declaration", text="chan m1, m2; clock x; int v;"),
+        ta("A", "id0"), ta("B", "id1"),
+        n("lsc", kids=[
+            n("name", text="Sc"), n("parameter", text="int a"), n("type", text="Universal"), n("mode", text="Invariant"),
+            n("declaration", text="int l;"),
+            n("yloccoord", {"number": "0", "y": "0"}), n("yloccoord", {"number": "1", "y": "50"}),
+            n("instance", {"id": "id8"}, kids=[n("name", text="A")]),
+            n("instance", {"id": "id9"}, kids=[n("name", text="B")]),
+            n("prechart", kids=[n("lsclocation", text="2")]),
+            n("message", kids=[n("source", {"ref": "id8"}), n("target", {"ref": "id9"}), n("lsclocation", text="1"), n("label", {"kind": "message"}, text="m1")]),
+            n("message", kids=[n("source", {"ref": "id9"}), n("target", {"ref": "id8"}), n("lsclocation", text="3"), n("label", {"kind": "message"}, text="m2")]),
+            n("condition", kids=[n("anchor", {"instanceid": "id8"}), n("anchor", {"instanceid": "id9"}), n("lsclocation", text="1"), n("temperature", text="hot"),
+                                 n("label", {"kind": "condition"}, text="x >= a")]),
+            n("condition", kids=[n("anchor", {"instanceid": "id9"}), n("lsclocation", text="4"), n("temperature", text="cold"), n("label", {"kind": "condition"}, text="x >= 1")]),
+            n("update", kids=[n("anchor", {"instanceid": "id8"}), n("lsclocation", text="3"), n("label", {"kind": "update"}, text="v = 1")]),
+        ]),
+        n("system", text="S = Sc(2);\nsystem A, B;"),
+        n("queries", kids=[n("query", kids=[n("formula", text="sat: S"), n("comment")])]),
+    ])
+
+
+def lsc_text_variants(base):
+    """the same chart with other element texts: existential type, non-numeric / negative / missing location numbers"""
+    out = []
+    def variant(what, fn):
+        t = copy.deepcopy(base)
+        fn(t)
+        out.append((what, t))
+    lsc = lambda t: [k for k in t["kids"] if k["tag"] == "lsc"][0]
+    variant("type existential", lambda t: [k for k in lsc(t)["kids"] if k["tag"] == "type"][0].update(text="existential"))
+    variant("type Existential", lambda t: [k for k in lsc(t)["kids"] if k["tag"] == "type"][0].update(text="Existential"))
+    for txt in ("abc", "-1", "0", "5"):
+        variant("prechart lsclocation " + txt, lambda t, txt=txt: [k for k in lsc(t)["kids"] if k["tag"] == "prechart"][0]["kids"][0].update(text=txt))
+        variant("message lsclocation " + txt, lambda t, txt=txt: [k for k in lsc(t)["kids"] if k["tag"] == "message"][0]["kids"][2].update(text=txt))
+    variant("temperature other", lambda t: [k for k in lsc(t)["kids"] if k["tag"] == "condition"][0]["kids"][3].update(text="warm"))
+    variant("instance name blank", lambda t: [k for k in lsc(t)["kids"] if k["tag"] == "instance"][0]["kids"][0].update(text=None, kids=[]))
+    variant("second lsc", lambda t: t["kids"].insert(4, copy.deepcopy(lsc(t))))
+    return out
+
+
 def nodes(t, path=()):
     """preorder list of (path, node)"""
     out = [(path, t)]
